@@ -562,15 +562,14 @@ Each stream is a state `Option (List index)` with a `next` step; `force` collect
 `force` is the only non-structural loop: it takes a fuel argument, and the callers pass a bound
 that is provably large enough (the number of states). -/
 
-/-- `CartesianPower::next` (streams.rs:434): increment the base-`m` counter from the right -/
-def powerIncr (m : Nat) : List Nat → Option (List Nat)
+/-- `CartesianPower::next` (streams.rs:434), the loop `for i in (0..len).rev() { v[i] += 1; if v[i]
+== m { v[i] = 0 } else { return } }` on the reversed digit list; `none` = ran off the front
+(`self.1 = None`) -/
+def powerGo (m : Nat) : List Nat → Option (List Nat)
   | [] => none
-  | v =>
-    -- for i in (0..len).rev(): v[i] += 1; if v[i] == m { v[i] = 0 } else { return }
-    let rec go : List Nat → Option (List Nat)   -- on the reversed digits
-      | [] => none
-      | d :: ds => if d + 1 == m then (go ds).map (0 :: ·) else some ((d + 1) :: ds)
-    (go v.reverse).map List.reverse
+  | d :: ds => if d + 1 == m then (powerGo m ds).map (0 :: ·) else some ((d + 1) :: ds)
+
+def powerIncr (m : Nat) (v : List Nat) : Option (List Nat) := (powerGo m v.reverse).map List.reverse
 
 /-- generic `force`: `step state = (item, next state)` -/
 def forceGo {σ : Type} (step : σ → β × Option σ) : Nat → Option σ → List β → List β
@@ -604,11 +603,12 @@ def subsequences (xs : List α) : List (List α) :=
 
 /-- `Combinations::next` (streams.rs:281) on the reversed index list: find the last index that
 can still grow (`v[i] + 1 < last`), bump it, reset what follows to consecutive values -/
+def combGo : Nat → List Nat → Option (Nat × List Nat)  -- last, reversed prefix; returns (new v[i], rev prefix)
+  | _, [] => none
+  | last, d :: ds => if d + 1 < last then some (d + 1, ds) else combGo (last - 1) ds
+
 def combIncr (n : Nat) (v : List Nat) : Option (List Nat) :=
-  let rec go : Nat → List Nat → Option (Nat × List Nat)  -- last, reversed prefix; returns (new v[i], rev prefix)
-    | _, [] => none
-    | last, d :: ds => if d + 1 < last then some (d + 1, ds) else go (last - 1) ds
-  match go n v.reverse with
+  match combGo n v.reverse with
   | none => none
   | some (d, dsRev) =>
     let pre := dsRev.reverse
